@@ -100,10 +100,16 @@ def run(res, f, tier):
         if names != {"name", "param"}:
             key_ok, why = False, "key depends on %s (must be exactly the function name and the argument)" % sorted(names)
         for l, parent in lv:
-            if l == "param" and parent not in ("Argument::new_debug", "Argument::new_display"):
+            if l == "param" and parent == "Argument::new_display":
+                key_ok, why = False, ("the argument enters the key through its Display rendering, which is not injective on values "
+                                      "(untyped / unquoted map keys, no variant tags); the derived Debug rendering is required")
+            elif l == "param" and parent != "Argument::new_debug":
                 key_ok, why = False, "the argument enters the key through %s, not as a whole" % parent
             if l == "name" and parent not in ("Argument::new_debug", "Argument::new_display"):
                 key_ok, why = False, "the name enters the key through %s" % parent
+    dbg = [i for i in f.impls if i.get("trait") == "std::fmt::Debug" and i["self_s"] == "value::Value"]
+    if not (len(dbg) == 1 and dbg[0]["derived"]):
+        key_ok, why = False, "Debug for Value is not the compiler-derived structural rendering"
     ob(key_ok, "C11|key-content", "the cache key must be a rendering of (name, whole argument): %s" % why, {"key": show(raw_keys[0]) if raw_keys else None})
     # 4. hit: no call, stored value returned;  miss: call, insert only after success, value returned
     K = next(iter(keys_get)) if keys_get else "?"
